@@ -157,6 +157,7 @@ def run(ctx):
     states = trans = 0
     counts = {"grid": 0, "halfturn": 0, "perturbed": 0, "tangent": 0}
     samples = []
+    distinct = set()      # distinct rotations (as the axis-angle vector, rounded) that are not the identity
     for points in ("grid", "halfturn"):
         r, cases = enumerate_cases(ctx, "RotationCharts", {"GMax": gmax, "Points": f'"{points}"'}, invariants=("SpurrierOK", "DivisionsExact"), tag=f"rc_{points}")
         states += r.distinct; trans += r.generated
@@ -171,6 +172,8 @@ def run(ctx):
             counts[points] += 1
             # tangent maps: at psi(P) (|psi| <= pi) and stretched into (pi, 2 pi)
             psi = psi_of(P)
+            if np.linalg.norm(psi) > 1e-12:
+                distinct.add(tuple(np.round(psi, 9)))
             if counts[points] % (1 if points == "halfturn" else 7) == 0 and np.linalg.norm(psi) > 0:
                 n = psi / np.linalg.norm(psi)
                 for ang in (np.linalg.norm(psi), 1e-4, 1e-9, 0.5 * (np.pi + np.linalg.norm(psi)), np.pi, 4.5, 6.0, 2 * np.pi - 1e-2):
@@ -184,15 +187,18 @@ def run(ctx):
                     Re = quat_to_matrix(Pe)
                     rotation_checks(ctx, J, Re, Pe, {"P": st["P"], "p0_over_|p|": eps}, "perturbed-half-turn", log_value=abs(eps) >= 1e-6)
                     counts["perturbed"] += 1
+                    distinct.add(tuple(np.round(psi_of(Pe), 9)) + (eps,))
             if len(samples) < 3 and (e["half"] or counts[points] % 211 == 0):
                 samples.append({"P": st["P"], "s": e["s"], "admissible_spurrier_outputs": sorted(list(o) for o in e["outs"])})
     tangent_checks(ctx, J, np.zeros(3), {"psi": [0, 0, 0]}, "tangent")
     counts["purity_histories"] = purity(ctx)
     ctx.log(f"[C02] lattice rotations {counts}; {J.n} float comparisons")
-    ctx.coverage = {"states": states, "transitions": max(trans, 1), "traces_validated_against_impl": sum(counts.values()), "samples": samples,
+    ctx.coverage = {"evaluations": sum(counts.values()), "distinct_nontrivial": len(distinct),
+                    "states": states, "transitions": max(trans, 1), "traces_validated_against_impl": sum(counts.values()), "samples": samples,
                     "exhaustive": True, "counts": counts, "comparisons": J.n, "grid": f"-{gmax}..{gmax}",
                     "rule": "all nonzero integer quaternions of the grid + 17 exact / near half-turns with components up to 100; 8 float perturbations per exact half-turn; "
-                            "tangent maps at 8 angles in [1e-9, 2 pi - 1e-2] along every 7th lattice axis"}
+                            "tangent maps at 8 angles in [1e-9, 2 pi - 1e-2] along every 7th lattice axis; evaluations = rotations, tangent points and purity histories "
+                            "evaluated; distinct_nontrivial = distinct rotation vectors (rounded to 1e-9, perturbed half-turns counted per perturbation) other than the identity"}
     ctx.assumptions = ["the matrix handed to the routines is N(P)/s rounded once per entry (exact rational rotation up to 1 ulp)",
                        "libm's atan2/sin/cos are trusted for the oracle psi(P)",
                        "tolerances: 1e-12 for Exp_SO3 / Spurrier, 1e-9 for round trips through Log_SO3, 1e-8 for SE(3), 2e-8 for the spin by central differences; "
